@@ -29,7 +29,9 @@ def sibling_gaps(lines: list[str], out=None, path="") -> list[tuple[str, bool, s
             i += 1
             continue
         m = _FENCE.match(ln)
-        if m:
+        if m and not (m.group(1)[0] == "`" and "`" in ln[len(m.group(1)):]):
+            # (a line that begins with a code span delimited by three or more backticks is not a fence: the info string of a
+            # backtick fence holds no backtick)
             fence = m.group(1)
             prev_item_end = None
             i += 1
